@@ -21,6 +21,20 @@ Theorem C32_per_reference : forall regs refs,
 Proof. intros regs refs. exact (select_pass_spec regs refs []). Qed.
 Print Assumptions C32_per_reference.
 
+(* Several register_scope_providers calls on one meta-model: the selection depends only on the latest
+   registration - keys of earlier calls that the latest call omits are not in force (after {'R.a': p1} then
+   {'*.*': p2} a reference R.a goes to p2; after {} the default provider is used).  Rests on the translated fact
+   that the method replaces the meta-model's dict (`self.scope_providers = sp`). *)
+Theorem C32_latest_registration : forall history last cls attr has_rrel,
+  select (active_keys (history ++ [last]) []) cls attr has_rrel = spec last cls attr has_rrel.
+Proof. exact select_latest_registration. Qed.
+Print Assumptions C32_latest_registration.
+
+Theorem C32_latest_registration_pass : forall history last refs,
+  select_pass (active_keys (history ++ [last]) []) refs [] = map (fun r => spec last (fst (fst r)) (snd (fst r)) (snd r)) refs.
+Proof. exact select_pass_latest_registration. Qed.
+Print Assumptions C32_latest_registration_pass.
+
 (* A registered RREL string denotes the provider built from the parsed expression (the parser of
    Model/RrelSyntax.v, property C12), i.e. the provider the same expression yields when written in the grammar. *)
 Theorem C32_rrel_string : forall t e,
@@ -44,3 +58,10 @@ Example C32_nonvacuous_pass :
   select_pass [[65;46;98]]%N [([65]%N, [98]%N, false); ([66]%N, [98]%N, false)] [] = [Registered [65;46;98]%N; Default].
 Proof. vm_compute. reflexivity. Qed.
 Print Assumptions C32_nonvacuous_pass.
+
+(* a specific key registered first, then only '*.*': the specific key is gone; then {}: the default provider *)
+Example C32_nonvacuous_history :
+  select (active_keys [[[65;46;98]]; [[42;46;42]]]%N []) [65]%N [98]%N false = Registered [42;46;42]%N /\
+  select (active_keys [[[65;46;98]]; []]%N []) [65]%N [98]%N false = Default.
+Proof. vm_compute. split; reflexivity. Qed.
+Print Assumptions C32_nonvacuous_history.
